@@ -347,6 +347,45 @@ fn g_long(t: &mut Tape) -> Scenario {
     sc
 }
 
+/// Long runs across sequence wrap-arounds with adversarial deliveries: after a wrap the
+/// rounds start at the initial sequence again and slots of the round buffer may still hold
+/// probes of an older, longer round that started at the same sequence.
+fn g_inject_long(t: &mut Tape) -> Scenario {
+    use crate::scenario::{Ports, Proto, Strat};
+    let mut sc = g_long(t);
+    sc.tracer.rounds = 20 + t.skewed(220);
+    // half of the runs in the regime that wraps every 512 numbers
+    if t.chance(500) {
+        sc.tracer.proto = Proto::Udp;
+        sc.tracer.strat = Strat::Dublin;
+        sc.tracer.v6 = true;
+        sc.tracer.unprivileged = false;
+        if matches!(sc.tracer.ports, Ports::None) {
+            sc.tracer.ports = Ports::FixedSrc(5000);
+        }
+        sc.tracer.source = crate::scenario::default_source(true);
+        sc.tracer.target = crate::scenario::default_target(true);
+        for path in &mut sc.net.paths {
+            for (i, r) in path.routers.iter_mut().enumerate() {
+                r.addr = crate::scenario::router_addr(true, i as u32 + 1, 0, 0);
+                r.nat = None;
+            }
+        }
+        sc.net.target.reply_from = None;
+    }
+    // the open finding c07.wrap-overlap (TCP re-issue storms next to the largest initial
+    // sequence make consecutive rounds share numbers) is looked for by C07, not here
+    if sc.tracer.proto == Proto::Tcp {
+        sc.tracer.initial_seq = sc.tracer.initial_seq.min(63_999);
+    }
+    sc.net.probe_loss_pm = sc.net.probe_loss_pm.max(30 + t.draw(120));
+    sc.inject.never_sent_pm = 100 + t.draw(400);
+    sc.inject.foreign_pm = t.draw(200);
+    sc.inject.unrelated_pm = t.draw(100);
+    sc.light = false;
+    sc
+}
+
 fn g_stats(t: &mut Tape) -> Scenario {
     // many short rounds so that per-hop statistics accumulate
     let mut p = Profile::base();
@@ -1014,6 +1053,7 @@ pub fn registry() -> Vec<PropertyCheck> {
             families: vec![
                 Family { name: "inject", gen: g_inject, oracle: oracle::c03, opts: opts_full(), quick_runs: 150_000, thorough_runs: 6_000_000, must_reach: &["handed.NeverSent", "handed.Foreign", "handed.Replay", "handed.Duplicate", "handed.Unrelated"], enum_dims: None },
                 Family { name: "inject-quiet", gen: g_inject_quiet, oracle: oracle::c03, opts: opts_full(), quick_runs: 60_000, thorough_runs: 2_000_000, must_reach: &[], enum_dims: None },
+                Family { name: "inject-long", gen: g_inject_long, oracle: oracle::c03, opts: opts_full(), quick_runs: 6_000, thorough_runs: 200_000, must_reach: &["handed.NeverSent"], enum_dims: None },
                 Family { name: "second-tracer", gen: g_neighbour, oracle: oracle::c03_neighbour, opts: opts_full(), quick_runs: 40_000, thorough_runs: 1_500_000, must_reach: &["reach.neighbour_datagram"], enum_dims: None },
                 Family { name: "second-tracer-quiet", gen: g_neighbour_quiet, oracle: oracle::c03_neighbour, opts: opts_full(), quick_runs: 30_000, thorough_runs: 1_000_000, must_reach: &["reach.neighbour_datagram"], enum_dims: None },
             ],
